@@ -17,6 +17,7 @@ package tcell
 import (
 	"os"
 	"reflect"
+	"unicode"
 
 	runewidth "github.com/mattn/go-runewidth"
 )
@@ -73,7 +74,7 @@ func (cb *CellBuffer) SetContent(x int, y int,
 		c.currComb = append([]rune{}, combc...)
 
 		if c.currMain != mainc {
-			c.width = runewidth.RuneWidth(mainc)
+			c.width = cellWidth(mainc)
 		}
 		c.currMain = mainc
 		if style.fg == ColorNone {
@@ -84,6 +85,18 @@ func (cb *CellBuffer) SetContent(x int, y int,
 		}
 		c.currStyle = style
 	}
+}
+
+// cellWidth is the display width of a cell's primary rune.  Format characters
+// (bidi controls and isolates, joiners, tags), non-spacing and enclosing marks
+// and noncharacters take no cell of their own whatever the width table says
+// about them; like other zero-width runes they are shown as a blank.
+func cellWidth(r rune) int {
+	if unicode.In(r, unicode.Cf, unicode.Mn, unicode.Me) ||
+		(r >= 0xfdd0 && r <= 0xfdef) || (r >= 0 && r&0xfffe == 0xfffe) {
+		return 0
+	}
+	return runewidth.RuneWidth(r)
 }
 
 // GetContent returns the contents of a character cell, including the
@@ -245,7 +258,7 @@ func (cb *CellBuffer) Fill(r rune, style Style) {
 			cs.bg = c.currStyle.bg
 		}
 		c.currStyle = cs
-		c.width = runewidth.RuneWidth(r)
+		c.width = cellWidth(r)
 	}
 }
 
